@@ -168,7 +168,7 @@ def failed_checks(r):
 def parse_playback_print(out):
     """blocks printed by --concrete-playback=print -> list of (check_kind, check_text, vals_text)"""
     blocks = []
-    for m in re.finditer(r"/// Test generated for harness `([^`]+)`.*?/// Check for `(\w+)`: (.*?)\n\s*#\[test\]\s*fn (\w+)\(\) \{\s*let concrete_vals: Vec<Vec<u8>> = vec!\[(.*?)\n\s*\];", out, re.S):
+    for m in re.finditer(r"/// Test generated for harness `([^`]+)`.*?/// Check for `(\w+)`: (.*?)\n\s*#\[test\]\s*fn (\w+)\(\) \{\s*let concrete_vals: Vec<Vec<u8>> = vec!\[(.*?)\n?\s*\];", out, re.S):
         blocks.append({"harness": m.group(1), "kind": m.group(2), "check": m.group(3).strip(), "vals": m.group(5)})
     return blocks
 
@@ -279,6 +279,76 @@ def isolate_retry(plan, wdir, h, log):
     return None
 
 
+def heap_model_signature(fc):
+    for c in fc:
+        d = (c.get("description") or "")
+        loc = json.dumps(c.get("location") or {})
+        if "rust_dealloc" in d or "free argument" in d or "kani_lib.c" in loc:
+            return True
+    return False
+
+
+def batch_replay(plan, wdir, crate, pending, log):
+    """concrete playback for many failing harnesses: Kani re-runs (parallel) print the concrete values, then ONE native
+    `cargo kani playback` build runs all generated tests. returns {harness: (verdict, info)}"""
+    import concurrent.futures as cf
+    def get_blocks(item):
+        h, r, key, row, fc = item
+        cmd = kani_cmd(plan, wdir, ["--harness", key or h.name, "--exact", "-Z", "concrete-playback", "--concrete-playback=print"])
+        rc, out = sh(cmd, cwd=crate, log=None, timeout=3600)
+        allb = parse_playback_print(out)
+        if h.unreachable:
+            sel = [b for b in allb if any(m in b["check"] for m in h.unreachable)][:2]
+        else:
+            sel = [b for b in allb if b["kind"] != "cover"][:3] or [b for b in allb if b["kind"] == "cover"][:3]
+        return h.name, sel, out[-800:]
+    blocks = {}
+    with cf.ThreadPoolExecutor(6) as ex:
+        for name, sel, tail in ex.map(get_blocks, pending):
+            blocks[name] = (sel, tail)
+    lib = os.path.join(crate, "src", "lib.rs")
+    tests = {}
+    add = []
+    for (h, r, key, row, fc) in pending:
+        sel, tail = blocks.get(h.name, ([], ""))
+        for n, b in enumerate(sel):
+            tname = "vp_playback_%s_%d" % (re.sub(r"\W", "_", h.name), n)
+            tests.setdefault(h.name, []).append((tname, b))
+            add.append("\n#[cfg(test)]\nmod %s_mod {\n    #[test]\n    fn %s() {\n        let concrete_vals: Vec<Vec<u8>> = vec![%s\n        ];\n"
+                       "        kani::concrete_playback_run(concrete_vals, crate::%s);\n    }\n}\n" % (tname, tname, b["vals"], key or h.name))
+    res = {}
+    outcome = {}
+    if add:
+        with open(lib, "a") as f:
+            f.write("".join(add))
+        rc2, out2 = sh(["cargo", "kani", "playback", "-Z", "concrete-playback", "--features", ",".join([plan.pid.lower()] + plan.features), "--", "vp_playback_"],
+                       cwd=crate, env={"CARGO_TARGET_DIR": os.path.join(wdir, "target-pb")}, log=log, timeout=7200)
+        for m in re.finditer(r"test (?:\w+::)*(vp_playback_\w+) \.\.\. (ok|FAILED)", out2):
+            outcome[m.group(1)] = m.group(2)
+        panics = re.findall(r"---- (?:\w+::)*(vp_playback_\w+) stdout ----\n(.*?)(?=\n----|\nfailures:)", out2, re.S)
+        pan = {a: b.strip()[:400] for a, b in panics}
+    for (h, r, key, row, fc) in pending:
+        ts = tests.get(h.name, [])
+        if not ts and h.unreachable:
+            # the marker was not reached in any counterexample: whatever failed, it is not "the point that must be unreachable was reached"
+            res[h.name] = ("not-reproduced", {"reason": "marker harness failed, but no counterexample reaches the marker", "tail": blocks.get(h.name, ([], ""))[1]})
+            continue
+        if not ts:
+            res[h.name] = ("no-playback", {"reason": "Kani produced no concrete playback test for a failed check", "tail": blocks.get(h.name, ([], ""))[1]})
+            continue
+        ran = [(t, b, outcome.get(t)) for t, b in ts]
+        info = {"harness_path": key, "tests": [{"test": t, "check": b["check"][:200], "native": o, "concrete_values": [v.strip() for v in re.findall(r"//\s*(.*)", b["vals"])],
+                                                "panic": pan.get(t)} for t, b, o in ran]}
+        if all(o is None for _, _, o in ran):
+            res[h.name] = ("no-playback", dict(info, reason="native playback did not run"))
+        elif h.unreachable:
+            # marker harness: reaching the marker natively (test passes) is the reproduction
+            res[h.name] = ("reproduced" if any(o == "ok" for _, _, o in ran) else "not-reproduced", info)
+        else:
+            res[h.name] = ("reproduced" if any(o == "FAILED" for _, _, o in ran) else "not-reproduced", info)
+    return res
+
+
 def classify_fail_kind(fc):
     """unwinding assertion failures are a bound problem, not a property violation"""
     kinds = set()
@@ -339,6 +409,7 @@ def run_property(plan, tier, seed, t_start):
         shutil.rmtree(replay_dir)
     os.makedirs(replay_dir, exist_ok=True)
     n_replayed = 0
+    pending = []
     for h in plan.harnesses:
         # Kani pretty names are module paths; our names are unique function names -> match by suffix
         key = None
@@ -430,13 +501,16 @@ def run_property(plan, tier, seed, t_start):
             row["outcome"] = "unsupported-construct"
             inconclusive.append("harness %s: reaches a construct Kani does not support" % h.name)
             continue
-        # genuine candidate: replay natively
-        if n_replayed >= int(os.environ.get("VERIF_MAX_REPLAY", "4")):
-            row["outcome"] = "failed-not-replayed"
-            inconclusive.append("harness %s failed; replay budget exhausted" % h.name)
-            continue
-        n_replayed += 1
-        verdict, info = replay(plan, wdir, crate, h, r, os.path.join(wdir, "replay.log"), fq=key)
+        # genuine candidate: replayed natively below (batched: one native build for all of them)
+        pending.append((h, r, key, row, fc))
+
+    MAXR = int(os.environ.get("VERIF_MAX_REPLAY", "24"))
+    for (h, r, key, row, fc) in pending[MAXR:]:
+        row["outcome"] = "failed-not-replayed"
+        inconclusive.append("harness %s failed; replay budget (%d) exhausted" % (h.name, MAXR))
+    verdicts = batch_replay(plan, wdir, crate, pending[:MAXR], os.path.join(wdir, "replay.log")) if pending else {}
+    for (h, r, key, row, fc) in pending[:MAXR]:
+        verdict, info = verdicts.get(h.name, ("no-playback", {"reason": "no result"}))
         rp = os.path.join(replay_dir, h.name + ".json")
         json.dump({"property_id": pid, "harness": h.name, "sample": h.sample, "failed_checks": fc[:10],
                    "replay": info, "repo_head": git_head(), "tier": tier}, open(rp, "w"), indent=1)
@@ -446,12 +520,12 @@ def run_property(plan, tier, seed, t_start):
             row["outcome"] = "violation"
             violations.append({"harness": h.name, "replay": rp, "what": fc[0]["description"]})
         elif verdict == "not-reproduced":
-            r2 = isolate_retry(plan, wdir, h, os.path.join(wdir, "replay.log"))
-            p2 = (r2 or {}).get("props") or {}
-            if r2 and r2.get("status") == "Success" and not (p2.get("unsatisfiable") or 0):
-                row["outcome"] = "held"
-                row["note"] = "failed only when compiled together with sibling harnesses (spurious heap-free precondition, not reproducible natively); SUCCESSFUL when decided in a crate containing this harness alone"
-                row["checks"] = p2.get("total_properties", row.get("checks"))
+            if heap_model_signature(fc):
+                # CBMC's heap model reports spurious free()/dereference failures when an EMPTY String (dangling pointer)
+                # is dropped; which harnesses are hit flips with unrelated edits (DESIGN §11). Not reproducible natively:
+                # the harness is reported undecided - it contributes nothing to the claim and raises no alarm.
+                row["outcome"] = "undecided"
+                row["note"] = "CBMC heap-model artefact on an empty String (free()/rust_dealloc precondition); counterexample does not reproduce natively"
             else:
                 row["outcome"] = "non-reproducing"
                 inconclusive.append("harness %s: counterexample did NOT reproduce natively (encoding or stub wrong)" % h.name)
